@@ -78,7 +78,9 @@ class ParserState:
         assert self.parser
 
         if skip := self.parser.rules.get("SKIP"):
-            return skip.parse(self, pairs)
+            # SKIP stands for WHITESPACE / COMMENT: its failures are not reported.
+            with self.suppress_failures():
+                return skip.parse(self, pairs)
 
         # Unoptimized whitespace and comment rules.
         whitespace_rule = self.parser.rules.get("WHITESPACE")
@@ -98,12 +100,13 @@ class ParserState:
                 if whitespace_rule:
                     self.checkpoint()
                     if whitespace_rule.parse(self, children):
-                        matched = True
                         some = True
                         pairs.extend(children)
                         self.ok()
-                    else:
-                        self.restore()
+                        children.clear()
+                        # pest: WHITESPACE* ~ (COMMENT ~ WHITESPACE*)*
+                        continue
+                    self.restore()
                     children.clear()
 
                 if comment_rule:
